@@ -147,7 +147,7 @@ def check_optimise(ctx, fname, deep):
         n_compound += 1
         problems = compound_arm(arm, binds, vn, fname, deep)
         ctx.check(not problems, rule, f["fn"], key,
-                  f"{vn}: flatten {vn}-in-{vn}" + (", unwrap singleton" if vn in UNWRAP else "") + ", sort, dedup, rebuild " + vn,
+                  (f"{vn}: flatten {vn}-in-{vn}" + (", unwrap singleton" if vn in UNWRAP else "") if deep else f"{vn}: outer terms only") + ", sort, dedup, rebuild " + vn,
                   f"{fname} arm for FilterResolved::{vn}: " + "; ".join(problems) + " — the rewritten filter no longer matches the same entries as the original",
                   file=f["file"], line=line)
         ctx.sample(f"{rule} {key} :: " + ("ok" if not problems else "; ".join(problems)))
